@@ -10,8 +10,9 @@
 //!   safety    when poll() answers Ready, every session's work is complete *and visible*: the session
 //!             writes a loom UnsafeCell before releasing its guard and the waiter reads it after Ready,
 //!             so a missing happens-before edge is reported by loom as a data race
-//!   progress  a Pending answer has asked for a wake-up (nobody else will wake the waiter: `drop` does not)
-//!   liveness  once every session thread has been joined, poll() answers Ready
+//!   progress  after a Pending answer a wake-up arrives by the time every session has finished (from the waiter itself or from
+//!             a releasing session - how is the implementation's business)
+//!   liveness  the poll that this wake-up causes answers Ready
 #![allow(unexpected_cfgs)]
 
 #[macro_export]
@@ -82,14 +83,15 @@ mod drive {
             }
         };
         let mut ready = false;
+        let mut wakes_when_last_poll_began = 0;
         for _ in 0..max_polls {
-            let before = counter.0.load(StdOrdering::SeqCst);
+            wakes_when_last_poll_began = counter.0.load(StdOrdering::SeqCst);
             match Pin::new(&mut wg).poll(&mut cx) {
                 Poll::Ready(()) => { ready = true; break }
                 Poll::Pending => {
+                    // (these polls are not wake-driven: an executor may poll spuriously; whether a Pending answer is *followed*
+                    //  by a wake-up is judged below, once every session has finished)
                     PENDING_POLLS.fetch_add(1, StdOrdering::Relaxed);
-                    let after = counter.0.load(StdOrdering::SeqCst);
-                    assert!(after > before, "ORACLE progress: WaitGroup answered Pending without asking to be polled again");
                     loom::thread::yield_now();
                 }
             }
@@ -100,12 +102,16 @@ mod drive {
         }
         for h in handles { h.join().unwrap(); }
         if !ready {
+            // an executor polls again only when a wake-up has arrived since the last poll began - whoever sends it, whenever:
+            // the waiter waking itself on every Pending answer, or the last session waking a registered waker, both do
+            let woke = counter.0.load(StdOrdering::SeqCst) > wakes_when_last_poll_began;
+            assert!(woke, "ORACLE progress: WaitGroup answered Pending and no wake-up has arrived although every session has finished (lost wake-up)");
             match Pin::new(&mut wg).poll(&mut cx) {
                 Poll::Ready(()) => { READY_LATE.fetch_add(1, StdOrdering::Relaxed); check_cells(&cells) }
                 Poll::Pending => panic!("ORACLE liveness: every session has finished and WaitGroup still answers Pending"),
             }
         }
-        std::mem::forget(wg); // howl's own handle is consumed by `.await`; its drop is not part of the protocol
+        drop(wg); // howl's own handle is consumed by `.await` and dropped there
     }
 }
 
